@@ -73,7 +73,11 @@ func (r *R) Bits(width int) uint64 {
 	} else {
 		max = (uint64(1) << uint(width)) - 1
 	}
-	switch r.Intn(12) {
+	switch r.Intn(14) {
+	case 12: // just below the maximum: where protocols put their reserved values (OFPP_*, OFPG_ALL, OFPTT_ALL, OFPCML_*)
+		return (max - uint64(r.Intn(16))) & max
+	case 13: // just above zero
+		return uint64(r.Intn(16)) & max
 	case 0:
 		return 0
 	case 1:
